@@ -16,6 +16,10 @@
 # define VT 6           /* pool size: ranges are sub-ranges of one text object (they may overlap, as in parsed input) */
 #endif
 
+#ifndef VU_SLACK
+# define VU_SLACK 0     /* extra characters behind the pool / behind owned blocks (see DESIGN "ISO C notes": the library forms
+                           `i + 2` before comparing it with afterLast, which is undefined at the very end of an object) */
+#endif
 struct vu_rng { signed char len; unsigned char off; };      /* len == -1: component absent */
 struct vu_shape {
 	struct vu_rng scheme, userInfo, hostText, port, query, fragment;
@@ -37,7 +41,7 @@ struct vu_shape {
 /* declares `struct vu_shape pfx` and the pool `pfx_pool`, all from named nondeterministic inputs */
 #define VU_INPUT(pfx) \
 	struct vu_shape pfx; \
-	ND_ARR(URI_CHAR, pfx##_pool, VT); \
+	ND_ARR(URI_CHAR, pfx##_pool, VT + VU_SLACK); \
 	VU_RNG_ND(pfx, scheme); VU_RNG_ND(pfx, userInfo); VU_RNG_ND(pfx, hostText); VU_RNG_ND(pfx, port); \
 	VU_RNG_ND(pfx, query); VU_RNG_ND(pfx, fragment); \
 	ND(unsigned char, pfx##_hostkind); pfx.hostkind = pfx##_hostkind; \
@@ -119,7 +123,7 @@ static int vu_nblocks_owned; /* number of ledger blocks handed to the last URI b
 static void vu_set_range(URI_TYPE(TextRange) *r, const struct vu_rng *s, const URI_CHAR *pool, int owned) {
 	if (s->len < 0) { r->first = NULL; r->afterLast = NULL; return; }
 	if (owned && s->len > 0) {
-		URI_CHAR *p = vmm_give((size_t)s->len * sizeof(URI_CHAR));
+		URI_CHAR *p = vmm_give((size_t)(s->len + VU_SLACK) * sizeof(URI_CHAR));
 		int i;
 		for (i = 0; i < VL; i++) if (i < s->len) p[i] = pool[s->off + i];
 		r->first = p; r->afterLast = p + s->len;
